@@ -185,6 +185,47 @@ func c15Check(c C15Case, rec *evid.Rec) error {
 		}
 		rec.Class("walks")
 	}
+	// 1'. the node budget on WalkLocal (every node of the root block in document order, links not followed): N lets
+	// it make exactly the first N visits and then stops it with a budget error; a budget equal to the number of
+	// nodes changes nothing, whatever the last node is
+	{
+		var UL []string
+		if lerr := (traversal.Progress{Cfg: cfg()}).WalkLocal(real.Root, func(p traversal.Progress, _ datamodel.Node) error {
+			UL = append(UL, p.Path.String())
+			return nil
+		}); lerr == nil && len(UL) <= 200 {
+			VL := len(UL)
+			for _, N := range []int{0, 1, VL / 2, VL - 1, VL, VL + 1} {
+				if N < 0 {
+					continue
+				}
+				var got []string
+				gerr := evid.Guard("WalkLocal", func() error {
+					return traversal.Progress{Cfg: cfg(), Budget: &traversal.Budget{NodeBudget: int64(N), LinkBudget: bigBudget}}.WalkLocal(real.Root, func(p traversal.Progress, _ datamodel.Node) error {
+						got = append(got, p.Path.String())
+						return nil
+					})
+				})
+				wantN := N
+				if wantN > VL {
+					wantN = VL
+				}
+				if len(got) != wantN || fmt.Sprint(got) != fmt.Sprint(UL[:wantN]) {
+					return fmt.Errorf("WalkLocal makes %d visits; with a node budget of %d it made %d (%v), want its first %d", VL, N, len(got), got, wantN)
+				}
+				if N >= VL && gerr != nil {
+					return fmt.Errorf("WalkLocal makes %d visits; with a node budget of %d it failed: %v", VL, N, gerr)
+				}
+				if N < VL && (gerr == nil || !budgetErr(gerr)) {
+					return fmt.Errorf("WalkLocal makes %d visits; with a node budget of %d: want ErrBudgetExceeded, got %v", VL, N, gerr)
+				}
+				if N < VL {
+					binding["local-node-budget"] = true
+				}
+				rec.Class("walks")
+			}
+		}
+	}
 	// 2a. the link budget on the transforming walk (identity function): it crosses the same links as the
 	// read-only walk, so a budget below their number must stop it with a budget error after exactly M loads
 	{
@@ -575,7 +616,7 @@ func c15Check(c C15Case, rec *evid.Rec) error {
 
 var c15Part = evid.Part[C15Case]{
 	Prop: "C15", Name: "controls", Quick: 700, Thorough: 280000,
-	Rule: "(graph, selector) from the C07 generators; against the unrestricted WalkAdv: node budget N for every N in 0..V+1, link budget M for every M in 0..L+1 (also on WalkTransforming with the identity function, and on Get, Focus and FocusedTransform (identity) along visited paths that cross links), StartAtPath for every visited path, LinkVisitOnlyOnce, and a loader returning SkipMe for a drawn set of links — each control alone; non-trivial = at least two controls actually bind (N<V, M<L, start index>0, a repeated link, a skipped link that is loaded); distinct by (graph, selector, skip set); the class 'walks' counts restricted walks executed",
+	Rule: "(graph, selector) from the C07 generators; against the unrestricted WalkAdv: node budget N for every N in 0..V+1 (and around the visit count of WalkLocal over the root block), link budget M for every M in 0..L+1 (also on WalkTransforming with the identity function, and on Get, Focus and FocusedTransform (identity) along visited paths that cross links), StartAtPath for every visited path (the walk's own path object, or the same path with every segment string-stored), LinkVisitOnlyOnce, and a loader returning SkipMe for a drawn set of links (also under the transforming walk, whose function must be handed values under the paths at which the read-only walk matches them) — each control alone; non-trivial = at least two controls actually bind (N<V, M<L, start index>0, a repeated link, a skipped link that is loaded); distinct by (graph, selector, skip set); the class 'walks' counts restricted walks executed",
 	Gen: func(t *rapid.T) C15Case {
 		c := genGraphSelOpt(t, rapid.IntRange(1, 4).Draw(t, "seldepth"), true)
 		if rapid.IntRange(0, 2).Draw(t, "broad") == 0 {
